@@ -1,0 +1,24 @@
+//go:build verif
+
+package fasta
+
+// Contracts for the deductive verifier in /verif (govc). Only compiled with -tags verif.
+
+// wfReader: the reader has its buffered source and template, and prefixes free of blanks
+// (true for the defaults ">" and ""), so that the name always starts after the prefix.
+//@ spec noBlank(p []byte) bool = forall k int :: 0 <= k && k < len(p) ==> p[k] != 32 && p[k] != 9
+//@ spec wfReader(r *Reader) bool = r != nil && r.r != nil && r.t != nil && noBlank(r.IDPrefix)
+
+//@ func (*Reader).header
+//@   property C03
+//@   requires wfReader(r)
+//@   requires len(line) >= len(r.IDPrefix) && forall k int :: 0 <= k && k < len(r.IDPrefix) ==> line[k] == r.IDPrefix[k]
+//@   ensures  result0 != nil
+//@   assigns fresh
+
+//@ func (*Reader).Read
+//@   property C03
+//@   requires wfReader(r)
+//@   ensures [value-or-error] result0 != nil || result1 != nil
+//@   loop 1 invariant wfReader(r) && (fresh(line) || arr(line) == 0)
+//@   loop 1 writes fresh
